@@ -31,6 +31,8 @@ const smtPrelude = `(set-option :produce-models true)
 (declare-fun seedS (Slc) Bool)
 (declare-fun seedF (Ifc) Bool)
 (declare-fun strlen (Int) Int)
+(declare-fun IDX (Int Int) Int)
+(assert (forall ((o Int) (i Int)) (! (= (IDX o i) (+ o i)) :pattern ((IDX o i)))))
 (declare-fun MUL (Int Int) Int)
 (assert (forall ((x Int) (z Int) (y Int)) (! (=> (and (< x z) (> y 0)) (<= (+ (MUL x y) y) (MUL z y))) :pattern ((MUL x y) (MUL z y)))))
 (assert (forall ((y Int)) (! (= (MUL 0 y) 0) :pattern ((MUL 0 y)))))
